@@ -47,6 +47,7 @@ type FuncContract struct {
 	Line     int
 	Pure     bool
 	Trusted  bool // contract assumed at call sites, body not verified
+	Lemma    bool // a ghost function (defined in the contract file) under contract
 	Requires []*Clause
 	Ensures  []*Clause
 	Assigns  []string
@@ -527,7 +528,25 @@ func recvString(fd *ast.FuncDecl) string {
 }
 
 func (pc *PkgContracts) resolveDecls() error {
+	// lemmas: ghost functions written in `//@ |` lines may themselves carry a contract; they are
+	// verified like real functions (they call the real code) and are how a property that relates
+	// several calls is stated over the contracts of the functions involved.
+	var rawFile *ast.File
+	if len(pc.Raw) > 0 {
+		src := "package " + pc.Name + "\n" + strings.Join(pc.Raw, "\n") + "\n"
+		if f, err := parser.ParseFile(pc.Fset, filepath.Join(pc.Dir, "zz_verif_raw.go"), src, 0); err == nil {
+			rawFile = f
+		}
+	}
 	for _, fc := range pc.Funcs {
+		if rawFile != nil && fc.Recv == "" {
+			for _, d := range rawFile.Decls {
+				if fd, ok := d.(*ast.FuncDecl); ok && fd.Name.Name == fc.Name && fd.Recv == nil && fd.Body != nil {
+					fc.Decl, fc.DeclFile = fd, rawFile
+					fc.Lemma = true
+				}
+			}
+		}
 		for _, f := range pc.Files {
 			for _, d := range f.Decls {
 				fd, ok := d.(*ast.FuncDecl)
@@ -681,6 +700,9 @@ func (pc *PkgContracts) generate(locals map[string]localInfo) (string, error) {
 	body.WriteString(`
 func old[T any](x T) T { return x }
 func allrefs[T any](f func(p *T) bool) bool { return true }
+func allstrings(f func(s string) bool) bool { return true }
+func iterpos(s string) int { return 0 }
+func floatfinite(f float64) bool { return true }
 func pow2(k int) int { return 1 << uint(k) }
 func bigval(x *verifbig.Int) int { return int(x.Int64()) }
 func forall(lo, hi int, f func(i int) bool) bool {
